@@ -72,6 +72,7 @@ type ghostAssign struct {
 type letDef struct {
 	Name string
 	Expr *SExpr
+	Text string
 }
 
 type Lemma struct {
@@ -816,7 +817,7 @@ func (sp *Specs) loadFile(path string, defaultPkg string) error {
 			if err != nil {
 				return err
 			}
-			cur.Lets = append(cur.Lets, letDef{strings.TrimSpace(l.rest[:i]), e})
+			cur.Lets = append(cur.Lets, letDef{strings.TrimSpace(l.rest[:i]), e, l.rest[i+1:]})
 		case "assigns":
 			if cur == nil {
 				return fmt.Errorf("%s: assigns outside func", pos)
